@@ -503,7 +503,7 @@ class Judge:
         try:
             if den == 0: r = 0.0 if num2 == 0 else float("inf")
             else: r = math.sqrt(float(num2 / (den * den)))
-        except (OverflowError, ValueError): r = float("nan")
+        except (OverflowError, ValueError): r = 1e300          # beyond the float range: record as huge
         if r > table.get(key, -1.0): table[key] = r
 
     def judge_value(self, case, ev, tag, ok, vre, vim, est, wp, model):
@@ -554,7 +554,7 @@ class Judge:
             self.samples.append({"kind": kind, "cls": case["cls"], "n": n, "eval": rep["eline"][:80],
                                  "err_over_bound": math.sqrt(float(e2 / (B * B))) if B else None})
         if e2 > B * B:
-            rep["error_over_bound"] = self.max_ratio["%s/%s" % (kind, arith)]
+            rep["error_over_bound"] = self.max_ratio.get("%s/%s" % (kind, arith))
             ctx.violation(sig_base + ":apriori-bound n=%d x=%s" % (n, rep["eline"]),
                           "|value - exact| exceeds the a-priori bound (%s, degree %d, %s)" % (kind, n, tag), rep)
         if arith != "M":
